@@ -163,6 +163,21 @@ theorem args_stop_at_first_trap (rec : Rec) (e : Expr) (es : List Expr) (env : E
     Option.bind] at *
   rw [h₁]; rfl
 
+/-- `Array[T]::fill_with(n, f)` calls `f(i)`, then fills the rest from `i + 1` in the state `f(i)` left behind: the
+    elements arrive in index order, every index is passed to `f` exactly once (the only use of the closure call) -/
+theorem fill_with_in_index_order (rec : Rec) (f : Val) (i k : Nat) (s s₁ s₂ : St) (v : Val) (vs : List Val)
+    (h₁ : (callClosure rec f [.int .w64 i]).run s = some (.ok v, s₁))
+    (h₂ : (fillWith rec f (i + 1) k).run s₁ = some (.ok vs, s₂)) :
+    (fillWith rec f i (k + 1)).run s = some (.ok (v :: vs), s₂) := by
+  simp only [fillWith, ExceptT.run, bind, ExceptT.bind, ExceptT.mk, StateT.bind, ExceptT.bindCont,
+    Option.bind] at *
+  rw [h₁]; simp only [StateT.bind]
+  rw [h₂]; rfl
+
+example : (fillWith (eval {} 5) (.ref 0) 0 2).run { heap := #[.clo ["i"] (.var "i") []] } =
+    some (.ok [.int .w64 0, .int .w64 1], { heap := #[.clo ["i"] (.var "i") []], cells := #[.int .w64 0, .int .w64 1] }) := by
+  rfl
+
 /-- a call evaluates its arguments with `evalList` before anything else happens -/
 theorem call_evaluates_args_first (p : Prog) (rec : Rec) (f : String) (args : List Expr) (env : Env) :
     step p rec (.call f args) env =
